@@ -155,6 +155,10 @@ func (c *Channel) ReadAll() ([]byte, error) {
 	default:
 	}
 
+	if c.readLoopExited {
+		return nil, util.ErrConnectionError
+	}
+
 	b := c.Q.DequeueAll()
 
 	if b == nil {
